@@ -92,7 +92,8 @@ pub enum Op {
     /// a batch; `lazy` = handed over through an iterator adaptor that does not know its length
     Writes(Vec<Payload>, bool),
     /// a batch given as runs (payload, how many times in a row): batches of tens of thousands of items
-    WritesRep(Vec<(Payload, usize)>, bool),
+    /// last field: hand the same payloads over one `write_payload` call at a time instead
+    WritesRep(Vec<(Payload, usize)>, bool, bool),
     WriteTlv(Kind, Vec<u8>),
     Build,
 }
@@ -222,7 +223,7 @@ pub fn op_json(op: &Op) -> Value {
         Op::SetLen(v) => json!({"op": "BSetLen", "v": v.map(|x| x as i64).unwrap_or(-1)}),
         Op::Write(p) => json!({"op": "BWrite", "p": payload_json(p)}),
         Op::Writes(ps, lazy) => json!({"op": "BWrites", "ps": ps.iter().map(payload_json).collect::<Vec<_>>(), "lazy": lazy}),
-        Op::WritesRep(runs, lazy) => json!({"op": "BWritesRep", "runs": runs.iter().map(|(p, n)| json!({"p": payload_json(p), "n": n})).collect::<Vec<_>>(), "lazy": lazy}),
+        Op::WritesRep(runs, lazy, each) => json!({"op": "BWritesRep", "runs": runs.iter().map(|(p, n)| json!({"p": payload_json(p), "n": n})).collect::<Vec<_>>(), "lazy": lazy, "each": each}),
         Op::WriteTlv(k, b) => json!({"op": "BTlv", "t": kind_json(k), "v": rl(b)}),
         Op::Build => json!({"op": "BBuild"}),
     }
@@ -239,6 +240,7 @@ pub fn op_from(v: &Value) -> Op {
         "BWritesRep" => Op::WritesRep(
             v["runs"].as_array().unwrap().iter().map(|r| (payload_from(&r["p"]), r["n"].as_u64().unwrap() as usize)).collect(),
             v["lazy"].as_bool().unwrap_or(false),
+            v["each"].as_bool().unwrap_or(false),
         ),
         "BTlv" => Op::WriteTlv(kind_from(&v["t"]), unrl(&v["v"])),
         _ => Op::Build,
@@ -456,7 +458,16 @@ fn apply(b: Builder, op: &Op) -> io::Result<Builder> {
         Op::SetLen(v) => Ok(b.set_length(*v)),
         Op::Write(p) => write_one(b, p),
         Op::Writes(ps, lazy) => write_many(b, ps, *lazy),
-        Op::WritesRep(runs, lazy) => {
+        Op::WritesRep(runs, lazy, each) => {
+            if *each {
+                let mut b = b;
+                for (p, n) in runs {
+                    for _ in 0..*n {
+                        b = write_one(b, p)?;
+                    }
+                }
+                return Ok(b);
+            }
             let mut ps: Vec<Payload> = Vec::new();
             for (p, n) in runs {
                 for _ in 0..*n {
@@ -1217,7 +1228,19 @@ pub fn generate_builder(name: &str, count: usize, rng: &mut Rng, out: &mut dyn W
                     3 => vec![(Payload::Int { ty: "u8".into(), neg: false, mag: vec![0x5A] }, c), (tail, 1)],
                     _ => vec![(e, c)],
                 };
-                ops.push(Op::WritesRep(runs, i % 2 == 1));
+                // the same payloads as one batch and one call at a time must build the same header
+                if i % 5 != 3 {
+                    let mut a = ops.clone();
+                    a.push(Op::WritesRep(runs.clone(), i % 2 == 1, false));
+                    a.push(Op::Build);
+                    let mut bb = ops.clone();
+                    bb.push(Op::WritesRep(runs.clone(), false, true));
+                    bb.push(Op::Build);
+                    let pid = 300000 + i;
+                    n += run_ops(&format!("bbatch-pair-{}", i), &json!({"g": "bpairs", "pair": pid, "side": "a"}), &a, out);
+                    n += run_ops_in(&format!("bbatch-pair-{}", i), &json!({"g": "bpairs", "pair": pid, "side": "b"}), &bb, out, false);
+                }
+                ops.push(Op::WritesRep(runs, i % 2 == 1, false));
                 if rng.chance(1, 2) {
                     ops.push(Op::Write(Payload::Slice(b"after".to_vec())));
                 }
